@@ -113,6 +113,15 @@ func checkReceipts(t interface {
 			})
 		}(c)
 	}
+	unhandledIDs := func() []string {
+		umu.Lock()
+		defer umu.Unlock()
+		var out []string
+		for id := range unhandled {
+			out = append(out, id)
+		}
+		return out
+	}
 	receipt := func(id string) {
 		sv.Feed(`<message xmlns="` + ns + `" type="chat" from="juliet@example.com/b" id="x` + id + `"><received xmlns="urn:xmpp:receipts" id="` + id + `"/></message>`)
 	}
@@ -176,6 +185,18 @@ func checkReceipts(t interface {
 		}
 		sv.Shutdown(3 * time.Second)
 	}
+	// unanswered: the call has not returned although its receipt was fed after
+	// the message was seen on the wire.  If the serve loop demonstrably processed
+	// the receipt (a sentinel fed after it is answered) while the call's context
+	// is alive, that is not a matter of timing: the receipt did not reach the
+	// call that waits for it.
+	unanswered := func(c *rcall) {
+		t.Helper()
+		if sync() {
+			fail("call %s was waiting (its message was on the wire, its context is alive) and the serve loop has processed its receipt, but the call did not return within %v; receipts reported as unhandled: %v", c.id(), waitLong, unhandledIDs())
+		}
+		stall("call " + c.id() + " did not return after its receipt")
+	}
 	for _, k := range rc.ord {
 		c := rc.calls[k]
 		if !onWire(c) {
@@ -187,14 +208,14 @@ func checkReceipts(t interface {
 		case "receipt":
 			receipt(c.id())
 			if !waitReturn(c) {
-				stall("call " + c.id() + " did not return after its receipt")
+				unanswered(c)
 				cleanup()
 				return
 			}
 		case "dup":
 			receipt(c.id())
 			if !waitReturn(c) {
-				stall("call " + c.id() + " did not return after its receipt")
+				unanswered(c)
 				cleanup()
 				return
 			}
@@ -203,7 +224,7 @@ func checkReceipts(t interface {
 			receipt("nobody-" + c.id())
 			receipt(c.id())
 			if !waitReturn(c) {
-				stall("call " + c.id() + " did not return after its receipt")
+				unanswered(c)
 				cleanup()
 				return
 			}
